@@ -372,7 +372,10 @@ def attrs(case, cap):
         d = [k for k in vars(m)]
         public = [k for k in d if not k.startswith("_")]
         private = [k for k in d if k.startswith("_")]
-        names = [("existing", n) for n in public[:3] + public[-2:]] + [("private", n) for n in private] + \
+        # names the message's DEFINITION knows although the object does not expose them (high-precision companions, reserved flags ...)
+        hidden = [n for n in item.get("defnames", []) if n not in d][:6]
+        names = [("existing", n) for n in public[:3] + public[-2:]] + [("private", n) for n in private] + [("definition", n) for n in hidden] + \
+                [("new", "_HPbrandNew"), ("new", "reserved99"), ("new", "__class__x"), ("new", "payload_01")] + \
                 [("new", "brandNewAttr"), ("new", "_brandNewPrivate"), ("property", "identity"), ("property", "payload"),
                  ("property", "length"), ("property", "msgmode"), ("method", "serialize")]
         for nk, n in names:
